@@ -221,6 +221,9 @@ struct C06 : Scenario {
 	// out differently or not at all; every other entry is still held to the archive exactly.
 	static void gen_fault(Rng &rng, Plan &p) {
 		if (!rng.chance(1, 6)) return;
+		// not together with a prompt script: a member that fails to appear changes which later members "exist" and thereby
+		// which scripted answer goes to which question - the effect of the fault would no longer be confined to one object
+		if (!p.stdin_script.empty()) return;
 		static const char *calls[] = {"mkdir", "open", "unlink", "symlink", "chmod", "chown", "fchmod", "fchown", "utime", "fdopen", "mkdir", "open"};
 		static const int errs[] = {EACCES, ENOSPC, EIO, EPERM, ENOENT, EEXIST, EROFS, ENOMEM, ELOOP, ENAMETOOLONG, EINTR, EMFILE, ENOTDIR, EISDIR};
 		p.sets("fsfaults", strf("%s:%d:%d", calls[rng.below(12)], (int) rng.below(6), errs[rng.below(14)]));
